@@ -293,7 +293,7 @@ def compiled_check(models):
 def configs(tier, seed):
     out = []
     quick = tier == 'quick'
-    models = ['clpt_donnell_bc1', 'clpt_donnell_bc3', 'clpt_sanders_bc1', 'fsdt_donnell_bc1'] if quick else sorted(NL)
+    models = ['clpt_donnell_bc1', 'clpt_donnell_bc2', 'clpt_donnell_bc3', 'clpt_donnell_bc4', 'clpt_sanders_bc1', 'fsdt_donnell_bc1'] if quick else sorted(NL)
     for model in models:
         for cone in (True, False):
             out.append({'variant': 'jacobian', 'model': model, 'mn': (2, 2, 1), 'cone': cone, 'group': 'tangent=jacobian:%s:%s' % (model, 'cone' if cone else 'cylinder'), 'm': 2, 'n': 1,
